@@ -117,6 +117,10 @@ pub struct FixtureDatabase {
     /// Used to mark fixtures from these files as `is_plugin` so the resolver
     /// can find them even when they are not in conftest.py or site-packages.
     pub plugin_fixture_files: Arc<DashMap<PathBuf, ()>>,
+    /// One lock per file, held for the duration of an analysis of that file.
+    /// The background workspace scan and an editor notification (didOpen/didChange) can
+    /// reach the same file concurrently; their index updates must not interleave.
+    pub file_analysis_locks: Arc<DashMap<PathBuf, Arc<std::sync::Mutex<()>>>>,
 }
 
 impl Default for FixtureDatabase {
@@ -147,6 +151,7 @@ impl FixtureDatabase {
             editable_install_roots: Arc::new(std::sync::Mutex::new(Vec::new())),
             workspace_root: Arc::new(std::sync::Mutex::new(None)),
             plugin_fixture_files: Arc::new(DashMap::new()),
+            file_analysis_locks: Arc::new(DashMap::new()),
         }
     }
 
